@@ -477,7 +477,7 @@ package storage
 // insertInternal is verified for the case that the child it descends into is a leaf (assume A-H2: trees of height 2). The recursive
 // case for deeper trees needs a frame for the ancestors that a one-level contract cannot state; it is NOT verified (bounded stand-in).
 //@ func (b *BTree) insertInternal(parent *btreeNode, curNode *btreeNode, key uint32, nextLSN uint64, value []byte) error
-//@   props C01 C02 C11 C13 C14
+//@   props C01 C02 C04 C11 C13 C14 C16
 //@   requires btOK(b) && fsLocked(fsOf(b)) && curNode != nil && intOK(curNode)
 //@   requires parent != nil ==> intOK(parent) && parent != curNode
 //@   assume[A-ASC.int] keyAbsent(curNode, key) ==> ascInt(parent, curNode, key)
@@ -494,6 +494,11 @@ package storage
 //@              (forall i int :: 0 <= i && i < old(cnt(parent)) ==> ic(parent,i) == old(ic(parent,i)))
 //@   ensures[nosplit.parent; C01 C11] result == nil && parent != nil && cnt(parent) == old(cnt(parent)) ==> parent.rightOffset == old(parent.rightOffset) &&
 //@              (forall i int :: 0 <= i && i < cnt(parent) ==> ic(parent,i) == old(ic(parent,i)))
+// Stamps follow changes one level up as well: an internal node that gained no separator keeps its stamp (it must not look newer
+// than the log records of rows that only went into its leaves), and a root created above a split internal node is stamped.
+//@   ensures[cur.nostamp; C04] result == nil && cnt(curNode) == old(cnt(curNode)) ==> curNode.lastLSN == old(curNode.lastLSN) && curNode.dirty == old(curNode.dirty)
+//@   ensures[newroot.stamp; C04 C16; witness rt=parent$] result == nil && parent == nil && b.rootOffset != old(b.rootOffset) ==>
+//@              exists rt *btreeNode :: fresh(rt) && rt.fileOffset == b.rootOffset && rt.dirty && rt.lastLSN == nextLSN
 
 //@ func (b *BTree) insertKey(key uint32, nextLSN uint64, value []byte) error
 //@   props C01 C02 C11 C13 C14
@@ -1268,7 +1273,7 @@ package storage
 //@ spec pred intImage(b *bytes.Buffer, p int) { intHdr(b,p) && intOffs(b,p,aiCnt()) && le16(b, p+29+2*aiCnt()) == aiFree() && intCells(b, p+31+2*aiCnt()+aiFree(), aiCnt()) }
 
 //@ func (n *btreeNode) encodeInternal() (*bytes.Buffer, error)
-//@   props C12
+//@   props C12 C16
 //@   requires slotsOK(n) && !n.isLeaf && cnt(n) <= maxInternal
 //@   ensures[total; C12] err == nil && result0 != nil && fresh(result0)
 //@   ensures[onepage; C12] bufr(result0) == 0 && bufw(result0) == 4096
@@ -1281,7 +1286,7 @@ package storage
 //@   loop 2 invariant[hdr] old(intIs(n)) ==> intHdr(buf,0) && intOffs(buf,0,cnt(n)) && intCells(bufFooter, 0, i)
 
 //@ func (n *btreeNode) decodeInternal(buf *bytes.Buffer) error
-//@   props C12
+//@   props C12 C16
 //@   requires buf != nil && aiWF() && len(n.offsets) == 0 && cap(n.offsets) == 0
 //@   requires bufw(buf) - bufr(buf) >= 4096 && intImage(buf, bufr(buf))
 //@   modifies n.fileOffset, n.lastLSN, n.rightOffset, n.offsets, n.freeSize, n.internalCells, bufr(buf), bufver(buf)
@@ -1336,7 +1341,7 @@ package storage
 //@ spec pred leafImage(b *bytes.Buffer, p int) { leafHdr(b,p) && leafOffs(b,p,alCnt()) && le16(b, p+39+2*alCnt()) == alFree() && leafCellsAt(b, p+4096-alPos(alCnt()), alCnt()) }
 
 //@ func (n *btreeNode) encodeLeaf() (*bytes.Buffer, error)
-//@   props C12
+//@   props C12 C16
 //@   requires slotsOK(n) && n.isLeaf && cnt(n) <= maxLeaf && sizesOK(n) && (forall i int :: 0 <= i && i < cnt(n) ==> len(lc(n,i).valueBytes) <= maxValue)
 //@   ensures[total; C12] err == nil && result0 != nil && fresh(result0)
 //@   ensures[onepage; C12] bufr(result0) == 0 && bufw(result0) == 4096
@@ -1351,7 +1356,7 @@ package storage
 //@   loop 2 invariant[cells] old(leafIs(n)) ==> bufw(bufFooter) == alPos(i) && leafCellsAt(bufFooter, 0, i)
 
 //@ func (n *btreeNode) decodeLeaf(buf *bytes.Buffer) error
-//@   props C12
+//@   props C12 C16
 //@   requires buf != nil && alWF() && len(n.offsets) == 0 && cap(n.offsets) == 0
 //@   requires bufw(buf) - bufr(buf) >= 4096 && leafImage(buf, bufr(buf))
 //@   modifies n.fileOffset, n.lastLSN, n.hasLSib, n.hasRSib, n.lSibFileOffset, n.rSibFileOffset, n.offsets, n.freeSize, n.leafCells, bufr(buf), bufver(buf)
